@@ -222,8 +222,16 @@ def e2e_part(chk, tier):
     try:
         plan = [[]] if tier == "quick" else [[], ["-tiny"], ["-literals", "-seed=o9WDTZ4CN4w"], ["-seed=o9WDTZ4CN4w"]] * 3
         for i, gflags in enumerate(plan):
-            prog = progen.gen_program(rnd, nsnip=9, must=[progen.s_asm, progen.s_linkname, progen.s_ldflags] if i % 2 == 0 else [])
-            res = e2e.build_both(E, prog, gflags, "p%d" % i)
+            prog = progen.gen_program(rnd, nsnip=9, must=[progen.s_asm, progen.s_linkname, progen.s_ldflags, progen.s_method_struct_param] if i % 2 == 0 else [progen.s_method_struct_param],
+                                       asm_in_main=(i % 4 == 0))
+            # every other program is built with TMPDIR BELOW the module directory (garble's temp dir then shares a prefix
+            # with the package directories that -trimpath rewrites)
+            extra_env = None
+            if i % 2 == 0:
+                asm_rel = next((rel for rel, pk in prog.pkgs.items() if pk["asm"]), "")
+                extra_env = {"TMPDIR": os.path.join(E.scratch, "p%d" % i, asm_rel, "tmp-%s-inside" % prog.keep)}
+                os.makedirs(extra_env["TMPDIR"], exist_ok=True)
+            res = e2e.build_both(E, prog, gflags, "p%d" % i, extra_env)
             chk.count_cases(["scan|%s|%s" % (prog.mod, " ".join(gflags))])
             if res["garbled"] is None:
                 chk.notes.append("garble build failed (C01's concern): " + res["garble_err"][-300:])
